@@ -278,10 +278,22 @@ MUTANTS: List[Dict[str, Any]] = [
         ],
     },
     {
-        "id": "out-holder-not-validated",
-        "what": "the holder of an out-transaction is not checked against the configured holders",
+        "id": "naive-timestamp-assumed-utc",
+        "what": "a timestamp without time zone is accepted and taken as UTC",
         "checks": ["C12"],
-        "edits": [{"file": "rp2/out_transaction.py", "old": 'self.__holder: str = configuration.type_check_holder("holder", holder)', "new": 'self.__holder: str = configuration.type_check_string("holder", holder)'}],
+        "edits": [{"file": "rp2/configuration.py", "old": "        if result.tzinfo is None:\n            raise RP2ValueError(f\"Parameter '{name}' value has no timezone info: {value}\")", "new": "        if result.tzinfo is None:\n            from datetime import timezone as _tz\n\n            result = result.replace(tzinfo=_tz.utc)"}],
+    },
+    {
+        "id": "spurious-table-end-ignored",
+        "what": "a TABLE END outside a table is ignored",
+        "checks": ["C12"],
+        "edits": [{"file": "rp2/ods_parser.py", "old": "            if _is_table_end(cell0_value):\n                # Found a spurious table end\n                raise RP2ValueError(f\"{asset}({i + 1}): Found end-table keyword without having found a table-begin keyword first\")", "new": "            if _is_table_end(cell0_value):\n                continue"}],
+    },
+    {
+        "id": "unknown-config-section-ignored",
+        "what": "unknown sections of the config file are ignored",
+        "checks": ["C12"],
+        "edits": [{"file": "rp2/configuration.py", "old": "                else:\n                    raise RP2ValueError(f\"{configuration_path}: invalid section '{section_name}' found\")", "new": "                else:\n                    pass"}],
     },
     {
         "id": "from-after-to-accepted",
